@@ -11,6 +11,29 @@ EXPLANATION = ("The Nonce invariant (!= close tag) is established at its single 
                "whose digest it returns and calls nothing non-deterministic.")
 
 
+def site_establishes_invariant(prog, root):
+    """Every Nonce aggregate in the value `root` returns is built under guards (path predicate + sampling
+    assumptions) that imply n != CLOSE_SCALAR."""
+    from ..intlin import expand
+    from .c01 import find_structs
+    S = Session(prog)
+    try:
+        ret = S.eval(root)
+    except Exception:
+        return False
+    if ret is None:
+        return False
+    found = 0
+    for pc, leaf in expand(S, ret):
+        for nv in find_structs(leaf, NONCE):
+            found += 1
+            ne = S.alg.bdd.NOT(S.alg.eq(nv[3][0], ("const", CLOSE_CONST)))
+            guard = S.alg.nb(pc)
+            if under_assumptions(S, S.alg.bdd.OR(S.alg.bdd.NOT(guard), ne)) != 1:
+                return False
+    return found > 0
+
+
 def run(rep):
     prog = rep.prog
     rep.rule("nonce-invariant", "every Nonce value built anywhere differs from CLOSE_SCALAR: single guarded construction site; Nonce::new returns only values that passed that guard; decoding goes through it")
@@ -27,8 +50,11 @@ def run(rep):
             rep.ok("nonce-invariant", "site:" + root.desc["name"], sample="constructed in the validating conversion")
         elif is_preserving_copy(prog, root, NONCE):
             rep.ok("nonce-invariant", "copy:" + str(root.desc.get("trait")), sample="field-wise copy", nontrivial=False)
+        elif site_establishes_invariant(prog, root):
+            rep.ok("nonce-invariant", "site:" + root.desc.get("qpath", "?")[-60:],
+                   sample="every Nonce value this function can yield satisfies n != CLOSE_SCALAR under the guards on its path")
         else:
-            rep.fail("nonce-invariant", "site:" + root.desc.get("qpath", "?")[-60:], "a Nonce is constructed outside its validating conversion, in %s" % b.path, site=b.loc())
+            rep.fail("nonce-invariant", "site:" + root.desc.get("qpath", "?")[-60:], "a Nonce is constructed outside its validating conversion, in %s, without a guard that excludes the close tag" % b.path, site=b.loc())
     if rep.anchor("TryFrom<UncheckedNonce> for Nonce", tf):
         S = Session(prog)
         r = S.eval(tf)
